@@ -65,6 +65,14 @@ def gen_sessions(rng, count):
     out.append(dict(id="r4", tab=4, file=None, expr="1/0; nope; sin(1,2); ceil(i); 5 m + 1; 2.5!; |sin|; ⌈i⌉; 3(4); [1, 5 m]; inverse([1,2;2,4]); 1 m as kg; pi = 3; delete sin; delete nope; ss = sin; ss(a) = a; delete ss(a); delete pi(a); e(x) = x", stdin=None))
     out.append(dict(id="r6", tab=4, file="Rate = 10\nrate = 20\nrAte = 30\nff(x) = x + RaTe\n", expr="RATE; RATE + 1; ff(1); Sin(0); PI; Rate; rate", stdin=None))
     out.append(dict(id="r7", tab=4, file=None, expr=None, stdin=["Rate = 10", "rate = 20", "RATE", "raTE = RATE", "raTE", "clear", "rate"], end="exit", after=[]))
+    for i, tail in enumerate(["w +", "k =", "v = (1 + 2", "d = 5 as", "f(1,", "[1, 2", "delete", "x = 1 y"]):
+        out.append(dict(id="t%d" % i, tab=4, file="w = 1\n" + tail, expr="w", stdin=None))
+        out.append(dict(id="u%d" % i, tab=4, file=None, expr="w = 1\n" + tail, stdin=None))
+    out.append(dict(id="e0", tab=4, file=None, expr="w = 2;;w * 3", stdin=None))
+    out.append(dict(id="e1", tab=4, file=";w = 5\n;;\nw;;\n", expr=";w", stdin=None))
+    out.append(dict(id="e2", tab=4, file=None, expr=None, stdin=["w = 2;;w * 3", ";w", "w;;", ""], end="exit", after=[]))
+    out.append(dict(id="r8", tab=4, file="poly(x) = x*x + 1\ncpa = poly\ncpb = poly\ncpc = poly\ncpd = poly\n", expr="delete poly; cpa; delete cpb; cpc(1,2)", stdin=None))
+    out.append(dict(id="r9", tab=4, file=None, expr=None, stdin=["poly(x) = x*x + 1", "cpa = poly", "cpb = poly", "cpc = poly", "delete poly", "delete cpa(x)", "cpb"], end=None, after=[]))
     out.append(dict(id="r5", tab=4, file="a1 = 1\nb1 = 2\nc1 = 3\nd1 = [1,2;3,4]\ne1 = 5 km\nf1(x) = x\n", expr="clear; a1; b1; c1; d1; e1; f1; pi; sin", stdin=None))
     out.append(dict(id="c6", tab=4, file=None, expr=None, stdin=[], end=None, after=[]))
     return out
@@ -256,6 +264,36 @@ def ambient_monitor(ctx, sessions):
         finally:
             shutil.rmtree(d, ignore_errors=True)
     rep.oblige("ambient: %d sessions under strace touch no path outside the loader's, /proc/self and the given file" % n, bad == 0, "%d do" % bad)
+
+
+def malformed_text_on_binary(ctx, rng, count):
+    """C03 / C10 on the real binary: a text with a lexical or syntax error anywhere — given as a preload file or as the
+    expression — prints exactly one diagnostic and runs none of its statements"""
+    core.build_impl(ctx["repo"], need_binary=True)
+    rep = ctx["rep"]
+    broken = ["1 +", "x = ", ")", "5 as", "delete 3", "1 2", "f(a+1) = 2", "#", "[1, 2; 3]", "clear 5", "(1"]
+    bad = n = 0
+    for lines in props.statement_programs(rng, count, faulty=0.1):
+        lines = ["zq = 41"] + [l for l in lines if "[" not in l][:5]
+        lines.insert(rng.randrange(1, len(lines) + 1), rng.choice(broken))
+        for mode in ("file", "expr"):
+            sep = rng.choice(["\n", "\n", ";"])
+            text = sep.join(lines) + rng.choice(["", sep])
+            s = dict(id="mal", tab=4, file=text if mode == "file" else None, expr="zq" if mode == "file" else text + "\nzq" if False else (text if mode == "expr" else "zq"), stdin=None)
+            rc, so, se = run_binary(ctx, s)
+            rep.evaluations += 1
+            n += 1
+            out_lines = so.splitlines()
+            # file mode: one diagnostic for the file, then `zq` must be unknown; expression mode: one diagnostic, nothing else
+            want = 2 if mode == "file" else 1
+            ok = rc == 0 and len(out_lines) == want and all(LINE_RE.match(l) or l.startswith("Expected") for l in out_lines)
+            if not ok:
+                bad += 1
+                if bad <= 3:
+                    rep.violation("binary (%s mode): a malformed text does not print exactly one diagnostic and run nothing: %r" % (mode, text),
+                                  case="front-malformed " + repr((mode, text)), impl=dict(rc=rc, stdout=so), stream="malformed-binary",
+                                  oracle="exactly one diagnostic line for the text" + ("; the probe `zq` must then be unknown" if mode == "file" else ""))
+    rep.oblige("malformed-binary: %d malformed texts through the real binary print exactly one diagnostic and run nothing" % n, bad == 0, "%d do not" % bad)
 
 
 def describe(s):
